@@ -89,3 +89,44 @@ Definition load_enh_old (dr dw : pat) (m : list (str * cred)) (e : enh_user) : l
   let r0 := match c_read (eu_acl e) with Some p => PPrefix p | None => dr end in
   let '(r, w) := match c_write (eu_acl e) with Some p => (r0, PPrefix p) | None => (dw, PNil) end in
   put (eu_name e) (mkCred (eu_hash e) r w) m.
+
+(* ---- inbound Topic Alias under the write ACL (connection.go onPublish) ----
+   A PUBLISH carries a topic (Some t) and possibly an alias a > 0, or only an alias (None).  The ACL is
+   consulted for a publish that names its topic; an alias is (re)bound only when that publish was
+   authorised; an alias-only publish is resolved through the table and NOT checked again. *)
+Inductive averdict := ARouted (t : N) | ADenied | AProtoErr.
+
+Fixpoint alias_get (a : N) (tbl : list (N * N)) : option N :=
+  match tbl with [] => None | (x, t) :: r => if N.eqb x a then Some t else alias_get a r end.
+
+Definition alias_pub (allowed : N -> bool) (tbl : list (N * N)) (t : option N) (a : N) : list (N * N) * averdict :=
+  match t with
+  | Some tp =>
+      if allowed tp then ((if N.eqb a 0 then tbl else (a, tp) :: tbl), ARouted tp) else (tbl, ADenied)
+  | None =>
+      match alias_get a tbl with
+      | Some tp => (tbl, ARouted tp)
+      | None => (tbl, AProtoErr)
+      end
+  end.
+
+Fixpoint alias_run (allowed : N -> bool) (tbl : list (N * N)) (ps : list (option N * N)) : list averdict :=
+  match ps with
+  | [] => []
+  | (t, a) :: r =>
+      let '(tbl', v) := alias_pub allowed tbl t a in
+      v :: match v with AProtoErr => [] | _ => alias_run allowed tbl' r end      (* a protocol error ends the connection *)
+  end.
+
+(* the shape a change could give it: the alias is bound before the ACL is consulted *)
+Definition alias_pub_early (allowed : N -> bool) (tbl : list (N * N)) (t : option N) (a : N) : list (N * N) * averdict :=
+  match t with
+  | Some tp =>
+      let tbl' := if N.eqb a 0 then tbl else (a, tp) :: tbl in
+      if allowed tp then (tbl', ARouted tp) else (tbl', ADenied)
+  | None =>
+      match alias_get a tbl with
+      | Some tp => (tbl, ARouted tp)
+      | None => (tbl, AProtoErr)
+      end
+  end.
